@@ -27,7 +27,8 @@ def main():
     tier = os.environ.get("TIER", "quick")
     dst = os.path.join(VERIF, "seeded", name)
     os.makedirs(dst, exist_ok=True)
-    for fn in ("patch.diff", "demo.py", "notes.md"):
+    extra = [fn for fn in os.listdir(src) if fn.endswith(".py") and fn != "demo.py"] if os.path.isdir(src) else []   # helper modules a demo imports
+    for fn in ["patch.diff", "demo.py", "notes.md"] + extra:
         if os.path.exists(os.path.join(src, fn)) and os.path.abspath(src) != os.path.abspath(dst):
             shutil.copy(os.path.join(src, fn), os.path.join(dst, fn))
     scr = tempfile.mkdtemp(prefix="seed_", dir="/var/tmp")
